@@ -1,4 +1,5 @@
 import Dawgs.Model.C08
+import Dawgs.Proofs.C09
 set_option linter.unusedSectionVars false
 set_option linter.unusedVariables false
 namespace Dawgs.C08
@@ -280,6 +281,76 @@ theorem reachesL_sets : ∀ (ts : List Tree) (st : St) (d : Int) (rest : List Fr
     · exact reachesL_sets ts st1 d rest (by rw [hs1, hst]) hd h st' h2
 end
 end Walk
+
+/-! ### a forced chain of rules from the root reaches the assignment of the result -/
+
+theorem conformsL_mem {must : List (List (List Nat))} : ∀ {ks : List Tree} {k : Tree}, conformsL must ks = true → k ∈ ks → k.conforms must = true
+  | [], _, _, h => by cases h
+  | t :: ts, k, hc, h => by
+    simp only [conformsL, Bool.and_eq_true] at hc
+    rcases List.mem_cons.1 h with h | h
+    · subst h; exact hc.1
+    · exact conformsL_mem hc.2 h
+
+theorem rulesL_mem : ∀ {ks : List Tree} {k : Tree} {x : Nat}, k ∈ ks → x ∈ k.rules → x ∈ rulesL ks
+  | [], _, _, h, _ => by cases h
+  | t :: ts, k, x, h, hx => by
+    rw [Dawgs.C09.rulesL_cons]
+    rcases List.mem_cons.1 h with h | h
+    · subst h; exact List.mem_append_left _ hx
+    · exact List.mem_append_right _ (rulesL_mem h hx)
+
+theorem reachesL_mem (T : Tables) : ∀ {ks : List Tree} {k : Tree}, k ∈ ks → T.reaches k = true → T.reachesL ks = true
+  | [], _, h, _ => by cases h
+  | t :: ts, k, h, hr => by
+    simp only [Tables.reachesL, Bool.or_eq_true]
+    rcases List.mem_cons.1 h with h | h
+    · subst h; exact Or.inl hr
+    · exact Or.inr (reachesL_mem T h hr)
+
+theorem reaches_of_chain (T : Tables) (direct : Nat → Bool) (must : List (List (List Nat))) :
+    ∀ (path : List Nat) (t : Tree), T.chainOK direct must path = true → t.rootRule = path.head? →
+      t.conforms must = true → (∀ x ∈ t.rules, direct x = false) → T.reaches t = true
+  | [], _, h, _, _, _ => by simp [Tables.chainOK] at h
+  | [r], t, h, hroot, _, _ => by
+    cases t with
+    | node r' kids =>
+      simp [Tree.rootRule] at hroot; subst hroot
+      simp only [Tables.chainOK] at h
+      simp [Tables.reaches, h]
+    | leaf _ => simp [Tree.rootRule] at hroot
+    | err _ => simp [Tree.rootRule] at hroot
+  | p :: c :: rest, t, h, hroot, hconf, hnd => by
+    cases t with
+    | leaf _ => simp [Tree.rootRule] at hroot
+    | err _ => simp [Tree.rootRule] at hroot
+    | node r' kids =>
+      simp [Tree.rootRule] at hroot; subst hroot
+      simp only [Tables.chainOK, Bool.and_eq_true] at h
+      obtain ⟨⟨hempty, hclause⟩, hrest⟩ := h
+      obtain ⟨clause, hcl, hall⟩ := List.any_eq_true.1 hclause
+      simp only [Tree.conforms, Bool.and_eq_true] at hconf
+      have hok := (List.all_eq_true.1 hconf.1) clause hcl
+      obtain ⟨k, hk, hkc⟩ := List.any_eq_true.1 hok
+      cases hrr : k.rootRule with
+      | none => simp [hrr] at hkc
+      | some x =>
+        simp only [hrr] at hkc
+        have hxmem : x ∈ clause := by simpa using hkc
+        have hxrules : x ∈ (Tree.node r' kids).rules := by
+          rw [Dawgs.C09.rules_node]; exact List.mem_cons_of_mem _ (Dawgs.C09.root_mem_rulesL hk hrr)
+        have hxd := hnd x hxrules
+        have hx := (List.all_eq_true.1 hall) x hxmem
+        have hxc : x = c := by
+          rcases Bool.or_eq_true_iff.1 hx with h1 | h1
+          · simpa using h1
+          · rw [hxd] at h1; cases h1
+        subst hxc
+        have hkreach : T.reaches k = true :=
+          reaches_of_chain T direct must (x :: rest) k hrest (by simpa using hrr) (conformsL_mem hconf.2 hk)
+            (fun y hy => hnd y (by rw [Dawgs.C09.rules_node]; exact List.mem_cons_of_mem _ (rulesL_mem hk hy)))
+        simp only [Tables.reaches, Bool.or_eq_true, Bool.and_eq_true]
+        exact Or.inr ⟨hempty, reachesL_mem T hk hkreach⟩
 
 /-! ### Go's TrimSpace of an all-space string is empty -/
 theorem blank_of_all_space (s : String) (h : ∀ c ∈ s.toList, goIsSpace c = true) : blankInput s = true := by
